@@ -69,6 +69,30 @@ def make_scenarios(behs, rnd, per_backend, backends, maxt, maxd):
     return scs
 
 
+def long_phase_scenarios(rnd):
+    """Phases longer than a chunk and not a multiple of it (5 warm-up and 7 sampling records, chunk 2 and 3), every
+    backend, both variable sets (numbers and strings): the enumerated sequences have at most two records per phase."""
+    scs = []
+    for b in BACKENDS:
+        for chunk in (2, 3):
+            ops = [{"op": "record", "tuning": True, "div": r % 2 == 1, "upd": r % 3 == 0} for r in range(5)]
+            ops.append({"op": "flush"})
+            ops += [{"op": "record", "tuning": False, "div": r % 3 == 2, "upd": False} for r in range(7)]
+            if chunk == 3:
+                ops.insert(9, {"op": "flush"})
+            chains = rnd.choice([1, 2])
+            scs.append({"backend": b, "preset": "diag_nuts", "dim": 2, "num_tune": 5, "num_draws": 7, "chains": chains,
+                        "store_warmup": True, "chunk": chunk, "full_events": chunk == 2, "optvecs": True, "specials": True,
+                        "precision": 8, "draw_vars": CSV_VARS if b == "csv" else VARSETS[1 if chunk == 2 else 0],
+                        "ops": mirror(ops, chains), "workdir": os.path.join(C.WORK, "storage"),
+                        "settings": {"adapt_options": {"mass_matrix_options": {"store_mass_matrix": True}}}})
+            if b in ("zarr", "zarr_async"):
+                sc2 = dict(scs[-1])
+                sc2["draw_vars"] = VARSETS[0 if chunk == 2 else 1]
+                scs.append(sc2)
+    return scs
+
+
 def run_backends(chk, scs, name, key_prefix=""):
     wd = C.workdir(name)
     os.makedirs(os.path.join(C.WORK, "storage"), exist_ok=True)
@@ -182,7 +206,7 @@ def run(tier):
     rnd = random.Random(C.seed() * 999331 + 77)
     behs = behaviours(chk, 2, 2)
     per = 60 if tier == "quick" else 1500
-    scs = make_scenarios(behs, rnd, per, BACKENDS, 2, 2)
+    scs = make_scenarios(behs, rnd, per, BACKENDS, 2, 2) + long_phase_scenarios(rnd)
     runs, failures = run_backends(chk, scs, "c14")
     for m, pe in runs[:2]:
         chk.sample({"scenario": m, "events": [{k: (v if k != "entries" else "%d entries" % len(v)) for k, v in e.items()} for e in pe[:8]]})
